@@ -194,13 +194,15 @@ theorem repeatTx_encodeTxs (ovh : Nat) : ∀ (txs : List Tx) (rest : Bytes), all
     (repeatTx ovh txs.length (encodeTxs txs ++ rest)).res = some (txs, rest) := by
   intro txs
   induction txs with
-  | nil => intro rest _; simp [repeatTx, encodeTxs, R.ok]
+  | nil => intro rest _; simp [repeatTx, repeatDec, encodeTxs, R.ok]
   | cons t ts ih =>
     intro rest h
     simp only [allTx, Bool.and_eq_true] at h
     have h1 : (decodeTxA (encodeTx t ++ (encodeTxs ts ++ rest))).res = some (t, encodeTxs ts ++ rest) :=
       decodeTx_encodeTx t _ h.1
-    simp only [List.length_cons, repeatTx, encodeTxs, List.append_assoc, h1, ih rest h.2]
+    have ih' := ih rest h.2
+    simp only [repeatTx] at ih' ⊢
+    simp only [List.length_cons, repeatDec, encodeTxs, List.append_assoc, h1, ih']
 
 /-- `Block.Deserialize(Block.Serialize(b)) = b` -/
 theorem decodeBlock_encodeBlock (b : Block) (rest : Bytes) (h : wfBlock b = true) :
@@ -215,5 +217,57 @@ theorem decodeBlock_encodeBlock (b : Block) (rest : Bytes) (h : wfBlock b = true
   rw [readLE_enc 4 b.txs.length _ (by omega)]
   simp only
   rw [repeatTx_encodeTxs 512 b.txs rest h3]
+
+/-- allocation bound of the block reader (header, `uint32` count, transactions read one by one) -/
+theorem decodeBlockA_good (D S : Nat)
+    (hall : ∀ ty ver fs, bodyTy? ty ver = some fs →
+      boundedFields fs = true ∧ densFields fs ≤ D ∧ slackFields fs ≤ S)
+    (hpD : dens programs ≤ D) (hpS : slack programs ≤ S)
+    (hhD : dens header ≤ D) (hhS : slack header ≤ S) (bs : Bytes) :
+    Good (512 + D) 0 S bs (decodeBlockA bs) := by
+  unfold decodeBlockA
+  have hh := alloc_good header (512 + D) bs (by decide) (by omega)
+  cases h1 : (decodeA header bs).res with
+  | none =>
+    simp only [h1]
+    refine ⟨fun v rest hr => by simp [R.fail] at hr, fun _ => ?_⟩
+    have := hh.2 h1
+    simp only [R.fail]; omega
+  | some p =>
+    obtain ⟨h, r⟩ := p
+    simp only [h1]
+    obtain ⟨c1, a1, _, a3⟩ := hh.1 h r h1
+    cases h2 : readLE 4 r with
+    | none =>
+      simp only [h2]
+      refine ⟨fun v rest hr => by simp [R.fail] at hr, fun _ => ?_⟩
+      have e : (512 + D) * c1 ≤ (512 + D) * bs.length := Nat.mul_le_mul_left _ (by omega)
+      simp only [R.fail]; omega
+    | some q =>
+      obtain ⟨n, r2⟩ := q
+      simp only [h2]
+      have hl := readLE_length h2
+      have htx : ∀ bs, Good D 1 S bs (decodeTxA bs) := decodeTxA_good D S hall hpD hpS
+      have hrep := repeatDec_good decodeTxA 512 D 1 S (512 + D) (Nat.le_refl _) (Nat.le_refl _) htx n r2
+      refine ⟨fun v rest hr => ?_, fun hn => ?_⟩
+      · simp only [repeatTx] at hr
+        cases h3 : (repeatDec decodeTxA 512 n r2).res with
+        | none => simp [h3] at hr
+        | some q3 =>
+          obtain ⟨txs, rest'⟩ := q3
+          simp only [h3, Option.some.injEq, Prod.mk.injEq] at hr
+          obtain ⟨_, rfl⟩ := hr
+          obtain ⟨c2, d1, _, d3⟩ := hrep.1 txs rest' h3
+          refine ⟨c1 + 4 + c2, by omega, Nat.zero_le _, ?_⟩
+          simp only [repeatTx, Nat.mul_add]; omega
+      · simp only [repeatTx] at hn
+        have hn2 : (repeatDec decodeTxA 512 n r2).res = none := by
+          cases hrr : (repeatDec decodeTxA 512 n r2).res with
+          | none => rfl
+          | some q => simp [hrr] at hn
+        have := hrep.2 hn2
+        have e : (512 + D) * (c1 + r2.length) ≤ (512 + D) * bs.length := Nat.mul_le_mul_left _ (by omega)
+        simp only [Nat.mul_add] at e
+        simp only [repeatTx]; omega
 
 end ElaVerif.Tx
